@@ -112,6 +112,12 @@ class Obj(object):
 
     __str__ = __repr__
 
+    def __hash__(self):
+        # equality stays identity; the hash is made a function of the name
+        # so that set/dict iteration order does not depend on addresses
+        # (replay determinism), which default id-based hashing would do
+        return hash(self.name)
+
 
 _OBJ_REG = {}
 
